@@ -194,6 +194,10 @@ def run_case(case, stats):
         raise Discard("load_fail_" + type(ex).__name__)
     if U.dynamic or U.size is None:
         raise Discard("dynamic_union")
+    # stand-alone member parses are done with the types of a SECOND cstruct object (same definitions), so that the reference
+    # shares no state with the union under test
+    Uref = getattr(gen.make_cs(cfg, gen.render(case["defs"])), case["defs"]["structs"][-1]["name"])
+    ref_type = {f._name: rf.type for f, rf in zip(U.__fields__, Uref.__fields__)}
     size = U.size
     # ---- size clause
     msizes = []
@@ -272,7 +276,7 @@ def run_case(case, stats):
             raise Violation("construct", "holder_parse_raised", f"struct holding the union: {type(ex).__name__}: {ex}")
 
     def member_view(f):
-        t = f.type
+        t = ref_type[f._name]
         return values_only(observe(t(io.BytesIO(bytes(model[(f.offset or 0):]))), sizes=False))
 
     def check(label):
